@@ -412,7 +412,8 @@ fn merge(cx: &mut Cx, found: Vec<Found>)
 enum Ranged {Range(i64, i64), RegAlt, Nothing}
 
 #[derive(Clone, Debug)]
-struct EncJob {tag: usize, rg: Ranged}
+struct EncJob {tag: usize, rg: Ranged, /// C01: strides of the single-request table look-ups for accepted / rejected wide tuples (0 = from the block size)
+	acc_every: u64, rej_every: u64}
 
 impl EncJob
 {
@@ -456,7 +457,7 @@ fn enum_slots(kinds: &[u8], rg: &Ranged, pre: &mut Vec<i64>, f: &mut dyn FnMut(&
 
 /// the ranged slot of every constructor: encodable interval widened by 3 on each side plus the extremes of
 /// the Rust field type (and 0, +-1, which all lie inside the widened intervals)
-fn enc_jobs(thorough: bool) -> Vec<EncJob>
+fn enc_jobs(thorough: bool, rng: &mut Rng) -> Vec<EncJob>
 {
 	let i32x = [(i32::MIN as i64, i32::MIN as i64 + 1), (i32::MAX as i64 - 1, i32::MAX as i64)];
 	let mut jobs = Vec::new();
@@ -465,14 +466,15 @@ fn enc_jobs(thorough: bool) -> Vec<EncJob>
 		let k = KINDS[t];
 		let ranged = k.bytes().find(|c| matches!(c, b'I' | b'X' | b'M'));
 		let name = NAMES[t];
+		let mut bl_strata = false;
 		let mut push = |lo: i64, hi: i64, chunk: i64|
 		{
 			let mut a = lo;
-			while a <= hi {let b = (a + chunk - 1).min(hi); jobs.push(EncJob{tag: t, rg: Ranged::Range(a, b)}); a = b + 1;}
+			while a <= hi {let b = (a + chunk - 1).min(hi); jobs.push(EncJob{tag: t, rg: Ranged::Range(a, b), acc_every: 0, rej_every: 0}); a = b + 1;}
 		};
 		match ranged
 		{
-			None => jobs.push(EncJob{tag: t, rg: Ranged::Nothing}),
+			None => jobs.push(EncJob{tag: t, rg: Ranged::Nothing, acc_every: 0, rej_every: 0}),
 			Some(b'M') => push(0, 65535, if k.len() > 1 {16384} else {65536}),
 			Some(b'X') =>
 			{
@@ -484,7 +486,7 @@ fn enc_jobs(thorough: bool) -> Vec<EncJob>
 				};
 				push(-3, hi + 3, 1 << 20);
 				for (a, b) in i32x {push(a, b, 4);}
-				jobs.push(EncJob{tag: t, rg: Ranged::RegAlt});
+				jobs.push(EncJob{tag: t, rg: Ranged::RegAlt, acc_every: 0, rej_every: 0});
 			},
 			Some(_) => match name
 			{
@@ -498,9 +500,28 @@ fn enc_jobs(thorough: bool) -> Vec<EncJob>
 					if thorough {push(-lim - 3, lim + 2, 1 << 20);}
 					else {push(-lim - 3, -lim + 255, 512); push(-(1 << 13), 1 << 13, 1 << 20); push(lim - 256, lim + 2, 512);}
 					for (a, b) in i32x {push(a, b, 4);}
+					if !thorough {bl_strata = true;}
 				},
 				_ => unreachable!(),
 			},
+		}
+		if bl_strata
+		{
+			// quick tier: every class (sign, bit 23, bit 22) of the offset x 64 imm10 values (0, 1, 0x3FF, 0x3FE, every
+			// power of two and its complement, alternating patterns, seeded values) x the whole imm11 space (and the odd
+			// offsets in between): the scrambled S/J1/J2 bits and both immediate fields are exercised in every combination
+			let mut imm10: Vec<i64> = vec![0, 1, 0x3FF, 0x3FE, 0x155, 0x2AA, 0x0F0, 0x30F];
+			for k in 1..10 {imm10.push(1 << k); imm10.push(0x3FF ^ (1 << k));}
+			while imm10.len() < 64 {let v = rng.below(1024) as i64; if !imm10.contains(&v) {imm10.push(v);}}
+			for class in 0..8i64
+			{
+				let (sgn, b23, b22) = (class >> 2, (class >> 1) & 1, class & 1);
+				for m in &imm10
+				{
+					let base = -(sgn << 24) + (b23 << 23) + (b22 << 22) + (m << 12);
+					jobs.push(EncJob{tag: t, rg: Ranged::Range(base, base + 4095), acc_every: 13, rej_every: 131});
+				}
+			}
 		}
 	}
 	jobs
@@ -564,7 +585,7 @@ fn c02_oracle(i: &Instruction, e: &Enc, text: &dyn Fn() -> String, found: &mut F
 struct SpecAsk {accepted: Vec<(String, [u8; 4])>, rejected: Vec<String>, stride_acc: u64, stride_rej: u64}
 
 /// C01 oracle on one tuple against the specification table
-fn c01_oracle(t: usize, e: &Enc, text: &str, spec: &SpecTab, ask: &mut SpecAsk, every: u64, found: &mut Found)
+fn c01_oracle(t: usize, e: &Enc, text: &str, spec: &SpecTab, ask: &mut SpecAsk, acc_every: u64, rej_every: u64, found: &mut Found)
 {
 	match e
 	{
@@ -579,7 +600,7 @@ fn c01_oracle(t: usize, e: &Enc, text: &str, spec: &SpecTab, ask: &mut SpecAsk, 
 		Enc::Ok(4, b) =>
 		{
 			ask.stride_acc += 1;
-			if ask.stride_acc % every == 0 {ask.accepted.push((text.to_owned(), *b));}
+			if ask.stride_acc % acc_every == 0 {ask.accepted.push((text.to_owned(), *b));}
 		},
 		Enc::Unrep =>
 		{
@@ -590,7 +611,7 @@ fn c01_oracle(t: usize, e: &Enc, text: &str, spec: &SpecTab, ask: &mut SpecAsk, 
 			if is_wide_tag(t)
 			{
 				ask.stride_rej += 1;
-				if ask.stride_rej % every == 0 {ask.rejected.push(text.to_owned());}
+				if ask.stride_rej % rej_every == 0 {ask.rejected.push(text.to_owned());}
 			}
 		},
 		other => found.fail(format!("enc {text}"), format!("encode into a 4-byte buffer returned `{}`", show_enc(other))),
@@ -640,6 +661,7 @@ fn enc_block(id: &str, job: &EncJob, model: &mut Model, spec: Option<&SpecTab>) 
 	// number of tuples of the block, to bound the single-request traffic of the C01 oracle
 	let size: u64 = {let mut c = 0u64; enum_slots(kinds, &job.rg, &mut Vec::new(), &mut |_| c += 1); c};
 	let every = (size / 40_000).max(1);
+	let (acc_every, rej_every) = (if job.acc_every > 0 {job.acc_every} else {every}, if job.rej_every > 0 {job.rej_every} else {every});
 	let mut pre = Vec::new();
 	enum_slots(kinds, &job.rg, &mut pre, &mut |f|
 	{
@@ -655,7 +677,7 @@ fn enc_block(id: &str, job: &EncJob, model: &mut Model, spec: Option<&SpecTab>) 
 		if id == "C01"
 		{
 			let text = show_fields(job.tag, f);
-			c01_oracle(job.tag, &e, &text, spec.unwrap(), &mut ask, every, &mut found);
+			c01_oracle(job.tag, &e, &text, spec.unwrap(), &mut ask, acc_every, rej_every, &mut found);
 		}
 		else {c02_oracle(&i, &e, &|| show_fields(job.tag, f), &mut found);}
 	});
@@ -1064,12 +1086,12 @@ fn run_enc(id: &str, cx: &mut Cx)
 all 2^16 register sets x every immediate in [lo-3, hi+3] of the union of the encodable intervals plus i32::MIN, MIN+1, MAX-1, MAX (u16/u8 fields: whole type or \
 interval plus the type maximum); B: all offsets -2051..2050 for all 15 conditions; BL: {}. Enumerated completely on the real encoder and by the model \
 (block digests); non-trivial = accepted by the encoder, distinct = distinct emitted byte strings (first 1500 per block). {}",
-		if thorough {"all offsets -2^24-3 .. 2^24+2"} else {"|off| <= 2^13 and the 256 offsets nearest each limit"},
-		if id == "C01" {"Oracle: the ARMv6-M table (Lean spec, served by the model) decodes the emitted bytes to exactly the tuple; every rejected tuple has no encoding in the table; every pattern the table defines is accepted (16-bit: all; 32-bit: all patterns in the thorough tier, all non-BL first halfwords and every 16th BL first halfword in the quick tier)."}
+		if thorough {"all offsets -2^24-3 .. 2^24+2"} else {"|off| <= 2^13, the 256 offsets nearest each limit, and for every class (sign, bit 23, bit 22) of the offset 64 imm10 values (0, 1, 0x3FF, 0x3FE, all powers of two and their complements, alternating patterns, seeded values) x all 4096 consecutive offsets (the whole imm11 space and the odd offsets between) = 2.1e6 BL tuples"},
+		if id == "C01" {"Oracle: the ARMv6-M table (Lean spec, served by the model) decodes the emitted bytes to exactly the tuple; every rejected tuple has no encoding in the table; every pattern the table defines is accepted (16-bit: all; 32-bit: all patterns in the thorough tier; in the quick tier all non-BL first halfwords and one BL first halfword (11110 S imm10) out of every 16 consecutive ones, i.e. 64 imm10 values for each S, each with all 65536 second halfwords, hence every S x J1 x J2 class with every imm11)."}
 		else {"Oracle: decode(encode(i)) == Ok((len, i)) on the real functions for every accepted tuple, also with trailing bytes."});
 
 	let spec = if id == "C01" {Some(load_spec_tab(&mut cx.model))} else {None};
-	let jobs = enc_jobs(thorough);
+	let jobs = enc_jobs(thorough, &mut cx.rng);
 	let spec_ref = spec.as_ref();
 	let found = run_jobs(cx, &jobs, |_, job, model| enc_block(id, job, model, spec_ref));
 	merge(cx, found);
